@@ -209,6 +209,7 @@ impl Visitor<'_, '_> {
         op: Sp<ast::AssignOpKind>,
         value: &Sp<ast::Expr>,
     ) -> ImplResult {
+        self.check_var_is_assignable(var)?;
         let var_ty = self.check_var(var);
         let value_ty = self.check_expr_as_value(value, op.span);
         let (var_ty, value_ty) = (var_ty?, value_ty?);
@@ -242,6 +243,7 @@ impl Visitor<'_, '_> {
         self.require_int(count_ty, count.span, count.span)?;
 
         if let Some(clobber) = clobber {
+            self.check_var_is_assignable(clobber)?;
             let clobber_ty = self.check_var(clobber)?;
             self.require_same((clobber_ty, count_ty), count.span, (clobber.span, count.span))?;
         }
@@ -358,6 +360,7 @@ impl ExprTypeChecker<'_, '_> {
 
             ast::Expr::XcrementOp { order: _, op, ref var }
             => {
+                self.check_var_is_assignable(var)?;
                 let var_ty = self.check_var(var)?;
 
                 self.require_int(var_ty, op.span, var.span)?;
@@ -431,6 +434,19 @@ impl ExprTypeChecker<'_, '_> {
                 ))),
             }
         };
+        Ok(())
+    }
+
+    /// Check that a variable being written to is not a compile-time constant.
+    fn check_var_is_assignable(&self, var: &Sp<ast::Var>) -> ImplResult {
+        if let Err(def_id) = self.ctx.var_reg_from_ast(&var.name) {
+            if self.ctx.defs.var_const_expr(def_id).is_some() {
+                return Err(self.emit(error!(
+                    message("cannot assign to a const"),
+                    primary(var, "this is a compile-time constant"),
+                )));
+            }
+        }
         Ok(())
     }
 
